@@ -119,7 +119,17 @@ def f_multi(x):
     return float(sum(_num(v) * math.sin(_num(v) + j) for j, v in enumerate(x)))
 
 
-OBJECTIVES = {'quad': f_quad, 'plateau': f_plateau, 'multi': f_multi}
+def f_zero(x):
+    # a constant objective: every agent has exactly the same cost 0.0 (feasibility / count-of-violations style)
+    return 0.0
+
+
+def f_step(x):
+    # exactly 0 on most of the box, positive on a thin slab
+    return float(sum(1.0 for v in x if _num(v) > 3.5))
+
+
+OBJECTIVES = {'quad': f_quad, 'plateau': f_plateau, 'multi': f_multi, 'zero': f_zero, 'step': f_step}
 
 
 def _safe(fn, x):
